@@ -21,6 +21,8 @@ fn step_fn(name: &str, ety: &Ty, panic_at_key: Option<u128>) -> Func {
     let key: Expr = match ety {
         Ty::U(8) => Expr::jet("left_pad_low_8_64", vec![Expr::var("elem")]),
         Ty::U(1) => Expr::jet("left_pad_low_1_64", vec![Expr::var("elem")]),
+        // element type == accumulator type: the two parameters can only be told apart by position
+        Ty::U(64) => Expr::var("elem"),
         Ty::U(256) => {
             stmts.push(Stmt::Let(
                 Pat::Tuple(vec![
@@ -126,7 +128,7 @@ pub fn run(cx: &mut Ctx) {
         }
         b *= 2;
     }
-    let etys = [Ty::U(8), Ty::U(1), Ty::Tuple(vec![Ty::U(8), Ty::Bool]), Ty::unit(), Ty::U(256)];
+    let etys = [Ty::U(8), Ty::U(64), Ty::U(1), Ty::Tuple(vec![Ty::U(8), Ty::Bool]), Ty::U(64), Ty::unit(), Ty::U(256)];
     let variants = if cx.thorough { 6 } else { 3 };
     for (ci, (bound, len)) in cases.iter().enumerate() {
         if ci % cx.nshards != cx.shard {
